@@ -395,6 +395,7 @@ static void setup()
 {
 	add_generator("determinants", ctx().count(21000, 700000), case_determinant);
 	add_generator("inverses", ctx().count(42000, 1400000), case_inverse);
+	add_generator("object_histories", ctx().count(1500, 150000), [](Rng& rng, uint64_t i) { la::matrix_history_case(rng, i, true); });
 	add_generator("rejected", ctx().count(420, 8400), case_reject);
 }
 VERIF_MAIN("C05", setup)
